@@ -28,7 +28,7 @@ AVOID = {
     "ppMinPoly:a-size": True,       # 2*W_OF_B(l) words of a are read, pp.h declares W_OF_B(2l)
     "zm:even-modulus-inv": True,    # zmInv / zmDiv -> zzDivMod requires an odd modulus (ASSERT zz_gcd.c)
     "zm:montR-short-zd": False,     # zero divisors with l < B*n (aborted in zzDoubleMod before zzRedMont was repaired)
-    "gf2:aligned-inv": True,        # gf2Inv / gf2Div read n + 1 words of an n-word element when B | m
+    "gf2:aligned-inv": False,       # gf2Inv / gf2Div read n + 1 words of an n-word element when B | m (repaired: 1b74953)
 }
 
 # ----------------------------------------------------------------------------------------------
@@ -628,6 +628,14 @@ def zm_fixed(lib):
     bg = bign_moduli(lib)
     for M, name in bg:
         add(M, "bign")
+    # generalised Mersenne (Solinas) shapes: long runs of ones and zeros in the modulus drive the quotient
+    # estimates of Barrett / ordinary reduction to their correction limits
+    for M in (2 ** 128 - 2 ** 64 + 1, 2 ** 192 - 2 ** 64 - 1, 2 ** 224 - 2 ** 96 + 1, 2 ** 256 - 2 ** 224 + 2 ** 192 + 2 ** 96 - 1,
+              2 ** 384 - 2 ** 128 - 2 ** 96 + 2 ** 32 - 1, 2 ** 128 - 2 ** 97 - 1, 2 ** 160 - 2 ** 31 - 1, 2 ** 96 - 2 ** 32 + 1,
+              2 ** 255 + 2 ** 64 + 2, 2 ** 320 - 2 ** 288 + 2, 2 ** 127 + 2 ** 64 - 1, 2 ** 191 + 1,
+              2 ** 256 - 2 ** 128 + 1, 2 ** 192 - 2 ** 96 + 1, 2 ** 384 - 2 ** 192 + 1, 2 ** 96 - 2 ** 32 - 1, 2 ** 192 - 2 ** 64 + 1,
+              2 ** 512 - 2 ** 256 + 1, 2 ** 256 - 2 ** 192 + 2 ** 64 - 1):
+        add(M, "solinas")
     p1, p2, p3 = 2 ** 61 - 1, 2 ** 89 - 1, 2 ** 127 - 1
     add(p1 * (2 ** 31 - 1), "composite-zd", (p1, 2 ** 31 - 1))
     add(p3 * p2, "composite-zd", (p3, p2))
@@ -656,7 +664,7 @@ def rand_top(rng, no, style):
 
 def zm_random(rng):
     no = rng.choice(NO_LIST)
-    style = rng.choice(["odd", "odd", "even", "even", "composite", "square", "crand", "prime", "pow2mult"])
+    style = rng.choice(["odd", "odd", "even", "even", "composite", "square", "crand", "prime", "pow2mult", "solinas", "solinas"])
     top = rng.choice(["set", "clear", "any"])
     u = rng.getrandbits(64)
     f = None
@@ -684,6 +692,17 @@ def zm_random(rng):
     elif style == "prime":
         no = min(no, 40)
         M = next_prime(rand_top(rng, no, top))
+    elif style == "solinas":
+        # 2^(8 no) - 2^a +- 2^b +- 1 (or 2^(8 no - 1) + ...), a, b at / near multiples of 32
+        nb = 8 * no
+        a_ = 32 * ((u >> 8) % max(1, nb // 32)) + (u >> 20) % 3 - 1
+        b_ = 32 * ((u >> 24) % max(1, nb // 32)) + (u >> 36) % 3 - 1
+        a_, b_ = min(max(a_, 1), nb - 2), min(max(b_, 1), nb - 2)
+        M = (1 << nb) - (1 << a_) + (1 if (u >> 40) & 1 else -1) * (1 << b_) + (1 if (u >> 41) & 1 else -1)
+        if (u >> 42) % 4 == 0:
+            M = (1 << (nb - 1)) + (1 << a_) - (1 << b_) + ((u >> 44) & 3) - 1
+        if M < 2 or blen(M) != no:
+            M = (1 << nb) - 1 - (u >> 44) % 1000 if nb > 10 else 251
     else:
         s = [1, 8, 31, 32, 33, 63, 64, 65][u % 8]
         odd = rand_top(rng, no, top) | 1
@@ -702,9 +721,16 @@ def zm_tuples(rng, M, f, k):
         r = rng.getrandbits(8 * blen(M) + 64) % M
         r2 = rng.getrandbits(8 * blen(M) + 64) % M
         s = rng.getrandbits(32)
+        # operands just below the modulus: mod - 1 - (number of up to half the modulus length)
+        hb = bl // 2 + 6
+        nr1, nr2, sh = rng.getrandbits(hb), rng.getrandbits(hb), rng.getrandbits(16)
+        near1, near2 = (M - 1 - (nr1 >> (sh & 0xFF) % hb)) % M, (M - 1 - (nr2 >> (sh >> 8) % hb)) % M
+        cat_i = cat + [near1, near2] * 3
         er = rng.getrandbits(192)
         e = EXPONENTS[s % len(EXPONENTS)] if (s >> 8) % 3 else er >> [184, 128, 122, 62, 0][(s >> 10) % 5]
         epad = (s >> 16) & 1
+        if i == 2:
+            e = er | 1 << 150          # one long exponent per (modulus, kind): > 200 chained products
         if i == 0:
             x, y = M - 1, M - 1
         elif i == 1:
@@ -713,9 +739,11 @@ def zm_tuples(rng, M, f, k):
             # zero divisors: x*y = 0 (mod M), x, y != 0 where possible
             x = f[0] * (1 + r % max(1, f[1] - 1)) % M
             y = f[1] * (1 + r2 % max(1, f[0] - 1)) % M
+        elif i == 2:
+            x, y = near1, near2
         else:
-            x = cat[(s >> 20) % len(cat)] if (s >> 17) % 5 < 2 else r
-            y = cat[(s >> 24) % len(cat)] if (s >> 28) % 5 < 2 else r2
+            x = cat_i[(s >> 20) % len(cat_i)] if (s >> 17) % 5 < 2 else r
+            y = cat_i[(s >> 24) % len(cat_i)] if (s >> 28) % 5 < 2 else r2
             if (s >> 30) & 1 and (s >> 31) & 1:
                 y = x
         T.append((x, y, e, epad))
